@@ -281,6 +281,29 @@ theorem no_credentials_on_wire (u : Url) (hs : IsScheme u.scheme)
 /-- instance: the user-info `u:p` of `ex1` does not reach the wire -/
 example := no_credentials_on_wire ex1 (Or.inl (by decide)) (Or.inr (by decide)) (by decide)
 
+/-! ## the server on the GStreamer layout (foreign clients) -/
+
+/-- **GStreamer layout** (`path/trackID=n?query`, as foreign clients write it): when the query itself contains
+no occurrence of the tag that `stringsReverseIndex` sees, the server recovers the original path, query and
+track id.  (When the query does contain `/trackID=`, the FFmpeg rule fires first and the two layouts are
+indistinguishable — outside the library client's behaviour, which always uses the FFmpeg layout.) -/
+theorem setup_gstreamer_layout (u : Url) (n : Nat) (hq : revIndex u.rawQuery trackTag = none) :
+    getPathAndQueryAndTrackID { u with path := u.path ++ trackTag ++ digits n } =
+      some (u.path, u.rawQuery, digits n) := by
+  have htl : trackTag.length = 9 := by decide
+  unfold getPathAndQueryAndTrackID
+  simp only [hq]
+  rw [revIndex_appended_tag _ _ (digits_ne_nil n) (digits_no_slash n)]
+  simp [htl, List.append_assoc]
+
+/-- GStreamer layout for the other methods: `path/?query` -/
+theorem play_gstreamer_layout (u : Url) (hp : u.path ≠ []) (hqs : endsWithSlash u.rawQuery = false) :
+    getPathAndQuery { u with path := u.path ++ [47] } false = (u.path, u.rawQuery) := by
+  unfold getPathAndQuery
+  simp [hqs, endsWithSlash_snoc, hp]
+
+example : revIndex ex2.rawQuery trackTag = none := by decide
+
 /-! ## what the client sends for each control-attribute style -/
 
 /-- **Relative control attributes** (`trackID=1`, `track1`, `streamid=0`, `video/1`, `/trackID=1`, …): the
@@ -591,6 +614,20 @@ theorem inScope_of_text {s : Str} {u : Url} (h : parse s = some u) {name : Str} 
   refine inScope_of_parse h (parse_omit h hne) ?_ ?_ hp hps hqs
   · rw [hh]; exact authOK_plain hu hn hpt
   · rw [hh]; exact authOK_plain (user := none) trivial hn hpt
+
+/-- The same for bracketed IPv6 literal hosts (`rtsp://admin:pw@[::1]:8554/…`, `rtsp://[2001:db8::7]/…`). -/
+theorem inScope_of_text_v6 {s : Str} {u : Url} (h : parse s = some u) {v6 : Str} {port : Option Str}
+    (hh : u.host = hostV6 v6 port) (hu : UserPlain u.user)
+    (hb : v6.all v6Byte = true) (hv : isIPv6 v6 = true) (hpt : ∀ p, port = some p → p.all isDigit = true)
+    (hp : u.path ≠ []) (hps : endsWithSlash u.path = false) (hqs : endsWithSlash u.rawQuery = false) :
+    InScope u := by
+  refine inScope_of_parse h (parse_omit h (by rw [hh]; unfold hostV6; simp)) ?_ ?_ hp hps hqs
+  · rw [hh]; exact authOK_v6 hu hb hv hpt
+  · rw [hh]; exact authOK_v6 (user := none) trivial hb hv hpt
+
+/-- the IPv6 class is inhabited: `::1` and `2001:db8::7` -/
+example : ([58, 58, 49] : Str).all v6Byte = true ∧ isIPv6 [58, 58, 49] = true ∧
+    isIPv6 [50, 48, 48, 49, 58, 100, 98, 56, 58, 58, 55] = true := by decide
 
 /-! ## further non-vacuity checks -/
 
